@@ -1592,6 +1592,136 @@ def rule_undefined_label(chk, prog, tier):
     r.exhaustive = True
 
 
+def rule_redeclared_kind(chk, prog, tier):
+    r = chk.rule('C10.y', 'an ordinary identifier declared again in the same scope as a different kind of thing - object, function, typedef name, enumeration constant - is diagnosed in every order (6.7p3), also when the second declaration is the typedef; '
+                 'a repeated object declaration, function declaration or identical typedef is accepted', floor=20, oracle='C11 6.7p3, 6.2.1p2')
+    from props import c09
+    decl_fn = prog.require_func('decl', 'decl.c')
+    KINDS = ('object', 'function', 'typedef', 'enumerator')
+    for scope in ('file', 'block'):
+        for first in KINDS:
+            for second in ('object', 'function', 'typedef'):
+                def runner(it):
+                    dw = c09.DeclWorld(prog, it); it.user['dw'] = dw
+                    base_declspecs = it.models['declspecs']
+                    cur = {}
+                    def declspecs(i2, a, e):
+                        v = base_declspecs(i2, a, e)
+                        if cur['kind'] == 'typedef': i2.assign(a[1].obj, a[1].path, ev(prog, 'SCTYPEDEF'))
+                        elif scope == 'block' and cur['kind'] == 'object': i2.assign(a[1].obj, a[1].path, ev(prog, 'SCEXTERN'))       # so that the repeated object declaration is valid in a block too
+                        return v
+                    it.models['declspecs'] = declspecs
+                    s_ = dw.filescope if scope == 'file' else dw.block()
+                    f = None if scope == 'file' else Ptr(Obj('curfunc', 'heap'), ())
+                    def one(kind):
+                        cur['kind'] = kind
+                        it.user['cur'] = c09.D('func' if kind == 'function' else 'obj', scope, ()); it.user['semi'] = [False, True]
+                        dw.tokobj.f[('kind',)] = ev(prog, 'TSEMICOLON')
+                        it.call(decl_fn, [s_, f])
+                    if first == 'enumerator':
+                        d = it.call('mkdecl', [dw.name, ev(prog, 'DECLCONST'), dw.w.t('int'), 0, ev(prog, 'LINKNONE')])
+                        it.user['scopes'][(s_.obj.id, 'x')] = d
+                    else:
+                        one(first)
+                    one(second)
+                    return 'accepted'
+                runs = explore(prog, runner, c09.decl_models(prog, None), max_runs=4, on_unsupported='keep')
+                key = 'redeclared-kind:[%s] %s x, then %s x' % (scope, first, second)
+                if len(runs) != 1 or runs[0].outcome not in ('return', 'terminal:error'):
+                    raise AnalysisBroken('%s: %s' % (key, [(x.outcome, x.detail) for x in runs][:2]))
+                got_diag = runs[0].outcome == 'terminal:error'
+                r.instance(got_diag == (first != second), key, 'decl.c:%s' % decl_fn.get('line'), 'must be %s; cproc %s' % ('diagnosed' if first != second else 'accepted', 'diagnoses it (%s)' % runs[0].detail if got_diag else 'accepts it'))
+    r.exhaustive = True
+
+
+def rule_deref_qualifiers(chk, prog, tier):
+    r = chk.rule('C10.z', 'the lvalue `*p` keeps the qualifiers of what p points to, also when p is an array that decayed (`*a`, `**m` for `const int a[3]`, `volatile int m[2][2]`) or `&x` (the `*&` pair is removed): '
+                 'a store through it is then subject to the const / volatile diagnostics like `a[0] = 1`', floor=12, oracle='C11 6.5.3.2p4, 6.7.3p9, 6.5.16p2')
+    mk = prog.require_func('mkunaryexpr', 'expr.c')
+    dc = prog.require_func('decay', 'expr.c')
+    QC, QV = ev(prog, 'QUALCONST'), ev(prog, 'QUALVOLATILE')
+    for q, qn in ((0, ''), (QC, 'const '), (QV, 'volatile '), (QC | QV, 'const volatile ')):
+        for shape in ('a[3]', 'm[2][3]', 'x'):
+            def runner(it):
+                w = World(prog, it=it, target='x86_64-sysv')
+                it.models.update({'error': lambda i2, a, e: (_ for _ in ()).throw(Terminal('error', cmodel.fmt_of(i2, a, 1)))})
+                def arr(el, n, qual=0):
+                    a = it.call('mkarraytype', [el, qual, n]); a.obj.f[('u', 'array', 'length')] = w.mkexpr('EXPRCONST', w.t('ulong'), u__constant__u=n); return a
+                if shape == 'x':
+                    x = w.temp(w.t('int'), 'x'); x.obj.f[('lvalue',)] = 1; x.obj.f[('qual',)] = q
+                    p = it.call(mk, [ev(prog, 'TBAND'), x])
+                    e = it.call(mk, [ev(prog, 'TMUL'), p]); n = 1
+                else:
+                    t = arr(w.t('int'), 3, q)
+                    if shape == 'm[2][3]': t = arr(t, 2)
+                    x = w.temp(t, 'a'); x.obj.f[('lvalue',)] = 1; x.obj.f[('qual',)] = 0
+                    e = it.call(mk, [ev(prog, 'TMUL'), it.call(dc, [x])]); n = 1
+                    if shape == 'm[2][3]': e = it.call(mk, [ev(prog, 'TMUL'), e]); n = 2
+                ty = it.load(e.obj, ('type',))
+                return it.load(e.obj, ('qual',)), ty.obj is w.t('int').obj, it.load(e.obj, ('lvalue',))
+            runs = explore(prog, runner, {}, max_runs=4, on_unsupported='keep')
+            text = {'a[3]': '*a', 'm[2][3]': '**m', 'x': '*&x'}[shape]
+            key = 'deref-qualifiers:%sint %s; %s' % (qn, shape, text)
+            if len(runs) != 1 or runs[0].outcome != 'return':
+                raise AnalysisBroken('%s: %s' % (key, [(x.outcome, x.detail) for x in runs][:2]))
+            got_q, isint, lv = runs[0].value
+            r.instance(got_q == q and isint and lv, key, 'expr.c:%s' % mk.get('line'), '`%s` is an lvalue of type int with the qualifiers `%s`; cproc: qualifiers %s, int %s, lvalue %s' % (text, qn.strip() or 'none', got_q, isint, lv))
+    r.exhaustive = False
+
+
+def rule_member_qualifiers(chk, prog, tier):
+    r = chk.rule('C10.z2', 'a member designated by s.m or p->m has the qualifiers of the structure object, of the member itself and of every anonymous structure or union it is reached through '
+                 '(`struct { const struct { int m; }; }`: m is const): stores to it are then subject to the const / volatile diagnostics', floor=20, oracle='C11 6.5.2.3p3-4, 6.7.2.1p13')
+    pf = prog.require_func('postfixexpr', 'expr.c')
+    QC, QV = ev(prog, 'QUALCONST'), ev(prog, 'QUALVOLATILE')
+    # struct S { int k; const int c; const struct { int m; volatile struct { int n; }; volatile int v; }; volatile union { int u; }; };      (name, offset, qualifiers on the way)
+    MEMBERS = [('k', 0, 0), ('c', 4, QC), ('m', 8, QC), ('n', 12, QC | QV), ('v', 16, QC | QV), ('u', 20, QV)]
+    for bq, bqn in ((0, ''), (QC, 'const '), (QV, 'volatile ')):
+        for access in ('TPERIOD', 'TARROW'):
+            for name, off, mq in MEMBERS:
+                def runner(it):
+                    w = World(prog, it=it, target='x86_64-sysv')
+                    def mem(n, t, q, o):
+                        m = Obj('member:%s' % n, 'heap')
+                        m.f.update({('name',): Ptr(it.mkstr(list(n.encode()), n), (0,)) if n else None, ('type',): t, ('qual',): q, ('offset',): o, ('bits', 'before'): 0, ('bits', 'after'): 0, ('bitfield',): 0, ('next',): None})
+                        return m
+                    def record(kind, size, members):
+                        ty = w.mkstruct(size=size, align=4, kind=kind); prev = None
+                        for m in members:
+                            if prev is None: ty.obj.f[('u', 'structunion', 'members')] = Ptr(m, ())
+                            else: prev.f[('next',)] = Ptr(m, ())
+                            prev = m
+                        return ty
+                    I = w.t('int')
+                    inner2 = record('TYPESTRUCT', 4, [mem('n', I, 0, 0)])
+                    inner = record('TYPESTRUCT', 12, [mem('m', I, 0, 0), mem(None, inner2, QV, 4), mem('v', I, QV, 8)])
+                    un = record('TYPEUNION', 4, [mem('u', I, 0, 0)])
+                    S = record('TYPESTRUCT', 24, [mem('k', I, 0, 0), mem('c', I, QC, 4), mem(None, inner, QC, 8), mem(None, un, QV, 20)])
+                    if access == 'TPERIOD':
+                        base = w.temp(S, 's'); base.obj.f[('lvalue',)] = 1; base.obj.f[('qual',)] = bq
+                    else:
+                        base = w.temp(w.mkptr(S, bq), 'p')
+                    seq = [access, 'TIDENT', 'TSEMICOLON']; stt = {'i': 0}
+                    tokobj = it.gobj('tok')
+                    def load():
+                        k = seq[min(stt['i'], len(seq) - 1)]
+                        tokobj.f[('kind',)] = ev(prog, k); tokobj.f[('lit',)] = Ptr(it.mkstr(list(name.encode()), name), (0,)) if k == 'TIDENT' else None
+                        tokobj.f[('loc', 'file')] = None; tokobj.f[('loc', 'line')] = 1; tokobj.f[('loc', 'col')] = 1
+                    it.models.update({'next': lambda i2, a, e: (stt.__setitem__('i', stt['i'] + 1), load(), None)[2], 'free': lambda i2, a, e: None,
+                                      'xmalloc': lambda i2, a, e: Ptr(Obj('heap@%s' % e.get('line'), 'heap'), ()),
+                                      'error': lambda i2, a, e: (_ for _ in ()).throw(Terminal('error', cmodel.fmt_of(i2, a, 1)))})
+                    load()
+                    e = it.call(pf, [Ptr(Obj('scope', 'heap'), ()), base])
+                    return it.load(e.obj, ('qual',)), it.load(e.obj, ('lvalue',))
+                runs = explore(prog, runner, {}, max_runs=4, on_unsupported='keep')
+                key = 'member-qualifiers:%s%s%s' % (bqn + ('s' if access == 'TPERIOD' else '*p'), '.' if access == 'TPERIOD' else '->', name)
+                if len(runs) != 1 or runs[0].outcome != 'return':
+                    raise AnalysisBroken('%s: %s' % (key, [(x.outcome, x.detail) for x in runs][:2]))
+                gq, lv = runs[0].value
+                r.instance(gq == (bq | mq) and lv, key, 'expr.c:%s' % pf.get('line'), 'the member lvalue must carry the qualifiers %s; cproc gives %s' % (bq | mq, gq))
+    r.exhaustive = False
+
+
 def rule_specifier_sets(chk, prog, tier):
     r = chk.rule('C10.x', 'storage-class specifiers: at most one per declaration, except that thread_local may be combined with static or extern, in any order and for any number of specifiers written (6.7.1p2); '
                  'function specifiers accumulate: `inline _Noreturn` in either order (and repeated) gives both', floor=250, oracle='C11 6.7.1p2, 6.7.4p5')
@@ -1670,6 +1800,9 @@ def run(chk, tier):
     chk.guard('C10.v', lambda: rule_addressof(chk, prog, tier))
     chk.guard('C10.w', lambda: rule_undefined_label(chk, prog, tier))
     chk.guard('C10.x', lambda: rule_specifier_sets(chk, prog, tier))
+    chk.guard('C10.y', lambda: rule_redeclared_kind(chk, prog, tier))
+    chk.guard('C10.z', lambda: rule_deref_qualifiers(chk, prog, tier))
+    chk.guard('C10.z2', lambda: rule_member_qualifiers(chk, prog, tier))
     from props import c12
     chk.guard('C12.b', lambda: c12.rule_redef(chk, prog, tier))             # 6.10.3p2 is a constraint: an incompatible macro redefinition must be diagnosed
     from props import c08
